@@ -175,6 +175,20 @@ class C16Objects:
                         node = master.derive(acc)
                         self.reg.add_node(node, 'hd%d.%s' % (i, acc))
                     hk = hk.subkey_for_path(path)
+                subj_node = master if kind == 'hdkey_master' else node
+                # keys the library derives from this object on its own (public_master, priming subkeys)
+                if subj_node.priv is not None:
+                    for rel in ('0', '0/1'):
+                        self.reg.add_node(subj_node.derive(rel), 'hd%d.sub/%s' % (i, rel))
+                    if kind == 'hdkey_master':
+                        for purpose in (44, 45, 48, 49, 84):
+                            acc = 'm'
+                            for part in ("%d'" % purpose, "%d'" % self.coin, "0'"):
+                                acc += '/' + part
+                                self.reg.add_node(master.derive(acc), 'hd%d.%s' % (i, acc))
+                            for st in ("1'", "2'"):
+                                if purpose == 48:
+                                    self.reg.add_node(master.derive(acc + '/' + st), 'hd%d.%s/%s' % (i, acc, st))
                 self.subjects.append({'kind': 'HDKey', 'obj': hk, 'label': 'hd%d' % i, 'wt': wt})
             else:
                 self.make_wallet(i, tag)
@@ -448,7 +462,8 @@ class C16Storage:
         self.ch = ch = world.ch
         if not (BD.DATABASE_ENCRYPTION_ENABLED and (BD.DB_FIELD_ENCRYPTION_KEY or BD.DB_FIELD_ENCRYPTION_PASSWORD)):
             raise RuntimeError("storage arm needs a worker with database field encryption switched on")
-        self.network = ch.weighted('network', [('bitcoin', 5), ('testnet', 2)])
+        self.network = ch.weighted('network', [('bitcoin', 4), ('testnet', 2), ('litecoin', 2), ('bitcoinlib_test', 1),
+                                               ('litecoin_testnet', 1)])
         self.coin = rcodec.NETWORKS[self.network]['coin_type']
         self.n_ops = ch.int('n_ops', 6, 16)
         ch.set_ops(self.n_ops)
